@@ -214,6 +214,24 @@ def c04_platforms(repo):
     return out
 
 
+def c14_flag_shapes(repo):
+    """shapes of the heater's flag items (Heating, CoolingDown) over all log tables"""
+    shapes = {}
+    for m in all_modules(repo):
+        for it in m.get("items", []):
+            if it["key"] in ("Heating", "CoolingDown") and it["cls"] in ("GeckoBoolStructAccessor", "GeckoEnumStructAccessor"):
+                sh = shape_of(it)
+                shapes.setdefault(sh, {"example": "%s:%s" % (m["module"], it["key"]), "raw": it, "count": 0})["count"] += 1
+    out = []
+    for sh in sorted(shapes, key=repr):
+        e = shapes[sh]
+        it = e["raw"]
+        out.append({"cls": sh[0], "bitpos": sh[1], "items": list(sh[2]) if sh[2] is not None else None, "items_raw": it.get("items"),
+                    "size": sh[3], "maxitems": sh[4], "readonly": sh[5], "rw": it["rw"], "count": e["count"], "example": e["example"],
+                    "id": hashlib.sha1(repr(sh).encode()).hexdigest()[:10]})
+    return out
+
+
 def c14_units(repo):
     return [{"id": "celsius", "celsius": True, "example": "TempUnits == C"},
             {"id": "fahrenheit", "celsius": False, "example": "TempUnits == F"}]
@@ -491,3 +509,70 @@ def c11_quick(repo):
                tuple(sorted(k for k in FACADE_KEYS if k in keys)), len(log.get("error_keys", [])) > 0)
         seen.setdefault(sig, c)
     return sorted(seen.values(), key=lambda c: c["id"])
+
+
+# ============================================================ C02: fields of one table are disjoint
+def _field_bits(pos, length, mask):
+    """absolute bit positions (byte*8 + bit-in-byte) covered by a big-endian field"""
+    out = set()
+    for bit in range(8 * length):
+        if (mask >> bit) & 1:
+            out.add((pos + (length - 1 - bit // 8)) * 8 + bit % 8)
+    return out
+
+
+def c02_overlap_ground(repo, tier):
+    """'...so no other item changes': within one table (config items, resp. log items) the bit fields of distinct
+    items are pairwise disjoint.  Pairs that overlap in the audited tables are known findings keyed by the two item names."""
+    d = derived_layouts(repo)
+    obs = []
+    n_pairs = 0
+    for m in all_modules(repo):
+        fields = []
+        for it in m.get("items", []):
+            dl = d[item_shape_key(it)]
+            length = dl["length"]
+            bp = it.get("bitpos")
+            mask = (dl["bitmask"] << bp) if bp is not None else (256 ** length - 1)
+            if isinstance(it["pos"], int):
+                fields.append((it["key"], it["pos"], length, _field_bits(it["pos"], length, mask)))
+        fields.sort(key=lambda f: f[1])
+        bad = {}
+        for i in range(len(fields)):
+            j = i + 1
+            while j < len(fields) and fields[j][1] <= fields[i][1] + fields[i][2] - 1 + 1:
+                n_pairs += 1
+                if fields[i][3] & fields[j][3]:
+                    a, b = sorted([fields[i][0], fields[j][0]])
+                    bad.setdefault((a, b), []).append(m["module"])
+                j += 1
+        for (a, b), mods in sorted(bad.items()):
+            obs.append({"name": "%s/fields-disjoint/%s-vs-%s" % (m["module"], a, b), "status": "refuted",
+                        "detail": "items %s and %s share bits: writing one changes the other" % (a, b),
+                        "witness": {"module": m["module"], "items": [a, b]}, "confirmed": True,
+                        "known": "C02:overlap:%s/%s" % (a, b)})
+        obs.append({"name": "%s/all-other-item-fields-pairwise-disjoint(%d items)" % (m["module"], len(fields)), "status": "proved"})
+    return {"name": "tables", "backend": "ground-eval(ast literal tables + real constructor via pyvc)", "obligations": obs,
+            "samples": [{"pairs_of_neighbouring_fields_compared": n_pairs}], "functions": {}}
+
+
+def c19_parse_bounded(repo, tier):
+    """bounded stand-in (never counted as proved): real GeckoSnapshot.parse on generated traffic lines, native"""
+    import subprocess
+    env = dict(os.environ)
+    env["PYTHONPATH"] = os.path.join(repo, "src")
+    verif = os.path.dirname(os.path.dirname(os.path.abspath(__file__)))
+    p = subprocess.run([os.environ.get("PYVC_NATIVE_PY", "/venv/bin/python"), os.path.join(verif, "native", "c19_parse_bounded.py")]
+                       + (["full"] if tier == "thorough" else []), capture_output=True, text=True, env=env, timeout=3000)
+    try:
+        r = json.loads(p.stdout.strip().splitlines()[-1])
+    except Exception:
+        return {"name": "bounded", "backend": "bounded-native-enumeration", "bounded": True, "obligations": [
+            {"name": "BOUNDED/traffic-line-parse", "status": "unknown", "detail": (p.stdout + p.stderr)[-400:]}]}
+    obs = [{"name": "BOUNDED/traffic-line-parses-back-to-the-payload(%d payloads of 1-2 bytes)" % r["cases"],
+            "status": "proved" if r["n_bad"] == 0 else "refuted", "detail": json.dumps(r["bad"][:3]), "witness": r["bad"][:3],
+            "confirmed": r["n_bad"] > 0}]
+    for k, n in sorted(r.get("known", {}).items()):
+        obs.append({"name": "BOUNDED/known:%s(%d payloads)" % (k, n), "status": "refuted", "known": k, "confirmed": True, "detail": k})
+    return {"name": "bounded", "backend": "bounded-native-enumeration(NOT a proof)", "bounded": True, "obligations": obs,
+            "samples": [{"bounded_cases": r["cases"]}]}
